@@ -285,20 +285,42 @@ def ax_assign_ptn(tier):
     return None, total
 
 
+def protected_chars(cands):
+    """the characters the REAL tokenizer protects when they are written with a backslash in front: the word `x\\c` comes out tagged"""
+    out, err = H.drive(['parse_line ./p x\\' + c for c in cands], timeout=60)
+    if out is None:
+        raise RuntimeError('replay harness: ' + str(err))
+    out = [l for l in out if l.startswith('tokens')]
+    prot = set()
+    for c, l in zip(cands, out):
+        toks = re.findall(r'\("((?:[^"\\]|\\.)*)", "((?:[^"\\]|\\.)*)"\)', l)
+        if len(toks) == 2 and toks[1][0] != '':
+            prot.add(c)
+    return prot
+
+
 def ax_glob_gate(tier):
-    """the gate of expand_glob: a word is a pattern exactly when it holds a `*` -- the one wildcard character the tokenizer protects when it is escaped"""
+    """the gate of expand_glob against the tokenizer: a word the gate sends to the glob library holds a character that the tokenizer protects
+    when it is escaped (today: `*`), and every word with a `*` is a pattern. A gate that knows more wildcards than the tokenizer protects
+    makes an escaped `\\?` expand (C01)."""
     lits = [l for l in fn_literals('src/shell.rs', 'needs_globbing') if '*' in l]
     if len(lits) != 1:
         raise LostAnchor('axcheck glob_gate: the pattern of needs_globbing was not found')
+    alpha = ['a', '*', '?', '[', ']', '.']
+    prot = protected_chars([c for c in alpha if c != 'a'])
     n = 4 if tier == 'quick' else 5
-    ts = list(strings(['a', '*', '?', '[', ']', '.'], n))
+    ts = list(strings(alpha, n))
     s_ = Session(); s_.set(lits[0])
     for t in ts:
         s_.caps(t)
     out = s_.run()[1:]
     for t, l in zip(ts, out):
-        if bool(parse_caps(l)) != ('*' in t):
-            return {'string': t, 'detail': 'needs_globbing pattern %r matches=%s for %r (holds a `*`: %s)' % (lits[0], bool(parse_caps(l)), t, '*' in t)}, len(ts)
+        m = bool(parse_caps(l))
+        if m and not any(c in prot for c in t):
+            return {'string': t, 'line': './pargs ' + ''.join('\\' + c if c != 'a' else c for c in t),
+                    'detail': 'needs_globbing pattern %r takes %r for a pattern, but the tokenizer protects only %s when escaped' % (lits[0], t, sorted(prot))}, len(ts)
+        if '*' in t and not m:
+            return {'string': t, 'detail': 'needs_globbing pattern %r does not take %r for a pattern although it holds a `*`' % (lits[0], t)}, len(ts)
     return None, len(ts)
 
 
